@@ -420,9 +420,13 @@ def gen_scenario(rng, tier: str) -> Dict[str, Any]:
     # application, not just the first one of a freshly compiled query
     if rng.random() < 0.3 and shape["class"] != "wide":
         sc["plan"] = {
-            "warm": rng.choice((None, None, "good", "bad")),  # the compiled query meets another document first
+            "warm": rng.choice((None, None, "good", "bad", "subtree", "subtree")),  # the compiled query meets another document first / other queries visit parts of this one
             "entries": [rng.choice(("find", "find", "finditer", "env.find")) for _ in range(rng.choice((2, 2, 3)))],
         }
+        if rng.random() < 0.4:
+            sc["plan"]["abandon"] = rng.choice(("find_one", "partial"))
+        if rng.random() < 0.3 and shape["class"] in ("chain", "dag") and L <= 150:
+            sc["plan"]["mutate"] = rng.choice(("deepen", "cycle"))
     if shape["class"] == "chain":
         sc["chain"] = chain
     return sc
@@ -496,6 +500,36 @@ def evaluate(sc: Dict[str, Any], sseed: int, profile: Dict[str, Any], feed: Opti
                         loop: List[Any] = [1]
                         loop.append({"a": loop})
                         one(lambda: compiled.find(loop))
+                    elif plan.get("warm") == "subtree":
+                        # other queries on the same environment visit PARTS of the same document object
+                        # first (a traversal of a subtree says nothing about the rest of the document)
+                        for wq in ("$.b..*", "$[0]..*", "$[-1]..*", "$.c..*", "$.*..[0]"):
+                            one(lambda wq=wq: env.find(wq, doc))
+                    if plan.get("abandon") == "find_one":
+                        one(lambda: [compiled.find_one(doc)][:0])
+                    elif plan.get("abandon") == "partial":
+                        def _partial() -> List[Any]:
+                            it = iter(compiled.finditer(doc))
+                            next(it, None)
+                            del it
+                            return []
+                        one(_partial)
+                    if plan.get("mutate") and isinstance(doc, (list, dict)):
+                        # the CALLER changes the document in place (deeper than the limit, or circular)
+                        # between two applications of the compiled query: what an earlier evaluation
+                        # -- completed or abandoned -- found out about it no longer holds
+                        extra: Any = doc if plan["mutate"] == "cycle" else 1
+                        if plan["mutate"] == "deepen":
+                            for _ in range(L + 2):
+                                extra = [extra]
+                        if isinstance(doc, list):
+                            doc.append(extra)
+                        else:
+                            doc["zz"] = extra
+                        exp = N.expected(qast, doc, L)
+                        mn2 = exp.get("max_nesting")
+                        f2 = 1 if mn2 != N.INF else min(L, 300)
+                        clock.cap = cap = max(cap, 400 * (exp.get("work", 0) + (gsize + L + 2) * len(qast["segs"]) * f2) + 8 * L * L * len(qast["segs"]))
                     obs = {"status": "ok", "locs": []}
                     for k, entry in enumerate(plan["entries"]):
                         clock.steps = 0  # each application has the budget of one
